@@ -56,7 +56,8 @@ ASSUMPTIONS = [
     "a history ends at its first failing step; regions of listed open findings (known_findings.json, ids in REGION_DOC) are steered around by construction and counted in excluded_known",
 ]
 
-MAX_POOL = 8
+MAX_POOL = 7
+MAX_MUT = 6  # a member is the target of at most this many successful in-place operations (bounds expression depth / cost)
 MAX_WEIGHT = 1000  # generator stops growing a member whose expression/graph-construction cost estimate would exceed this
 DTYPES = ("i8", "f8", "bool")
 REFKEYS = ("src", "tgt", "other")
@@ -1437,7 +1438,7 @@ def _gen_value(D_, it, i, t, key, sel):
 
 
 def gen_setitem(D_, it, family="any"):
-    cands = _members(it)
+    cands = _members(it, lambda e: e.nmut < MAX_MUT)
     known = [c for c in cands if not it.pool[c].unknown]
     if not cands:
         return None
@@ -1500,7 +1501,7 @@ def _bcast_index(D_, shape):
 
 
 def gen_ufunc(D_, it):
-    tg = _members(it, lambda e: _plain(e))
+    tg = _members(it, lambda e: _plain(e) and e.nmut < MAX_MUT)
     if not tg:
         return None
     i = D_.choice(tg)
